@@ -2,10 +2,7 @@ package chsql
 
 import (
 	"strings"
-	"sync"
 )
-
-var ptrMu sync.Mutex
 
 // valueSet is the right-hand side of IN.
 type valueSet struct {
